@@ -67,3 +67,45 @@ T('c20-twin-rename', 'C20', 'renamed locals',
 T('c20-twin-setdefault', 'C20', 'setdefault().append idiom',
   (TR, "            if func.__name__ not in _func_traces:\n                _func_traces[func.__name__] = [t]\n            else:\n                _func_traces[func.__name__].append(t)\n",
        "            _func_traces.setdefault(func.__name__, []).append(t)\n"))
+
+# ---------------------------------------------------------------- C19
+M('c19-crosswire-lambda', 'C19', 'SIB-SCHED', 'damping block uses the factor_decay lambda',
+  (SC, "            factor = self._damping_lambda(\n", "            factor = self._factor_decay_lambda(\n"))
+M('c19-crosswire-target', 'C19', None, 'kl_clip block multiplies lr',
+  (SC, "            self._preconditioner._kl_clip *= factor", "            self._preconditioner._lr *= factor"))
+M('c19-no-int', 'C19', 'AFF-SCHED', 'inv_update_steps not truncated',
+  (SC, "            self._preconditioner._inv_update_steps = int(\n                self._preconditioner._inv_update_steps * factor,\n            )",
+       "            self._preconditioner._inv_update_steps = (\n                self._preconditioner._inv_update_steps * factor\n            )"))
+M('c19-additive', 'C19', 'AFF-SCHED', 'lr updated additively',
+  (SC, "            self._preconditioner._lr *= factor", "            self._preconditioner._lr += factor"))
+M('c19-ignores-explicit-step', 'C19', 'STEP-PREC', 'lr block ignores the explicit step',
+  (SC, "            factor = self._lr_lambda(\n                step if step is not None else self._preconditioner.steps,\n            )",
+       "            factor = self._lr_lambda(\n                self._preconditioner.steps,\n            )"))
+M('c19-step-truthiness', 'C19', 'STEP-PREC', 'explicit step 0 treated as absent',
+  (SC, "            factor = self._kl_clip_lambda(\n                step if step is not None else self._preconditioner.steps,",
+       "            factor = self._kl_clip_lambda(\n                step if step else self._preconditioner.steps,"))
+M('c19-refusal-dropped', 'C19', 'SIB-REFUSE', 'refusal tests the wrong parameter',
+  (SC, "            if callable(self._preconditioner._kl_clip):", "            if callable(self._preconditioner._lr):"))
+M('c19-ctor-crosswire', 'C19', 'SIB-SCHED', 'constructor stores the wrong lambda',
+  (SC, "        self._damping_lambda = damping_lambda", "        self._damping_lambda = factor_decay_lambda"))
+M('c19-round-intervals', 'C19', 'AFF-SCHED', 'round() instead of int()',
+  (SC, "            self._preconditioner._factor_update_steps = int(", "            self._preconditioner._factor_update_steps = round("))
+M('c19-expdecay-max', 'C19', 'AFF-EXPDECAY', 'max for min',
+  (HP, "        return min(1 - (1 / step), min_value)", "        return max(1 - (1 / step), min_value)"))
+M('c19-expdecay-plus', 'C19', 'AFF-EXPDECAY', '1 - 1/(k+1)',
+  (HP, "        return min(1 - (1 / step), min_value)", "        return min(1 - (1 / (step + 1)), min_value)"))
+M('c19-expdecay-cap-check', 'C19', 'AFF-EXPDECAY', 'cap < 0 instead of <= 0',
+  (HP, "    if min_value <= 0:", "    if min_value < 0:"))
+M('c19-expdecay-neg-ok', 'C19', 'AFF-EXPDECAY', 'step <= 0 mapped to 1 (negative accepted)',
+  (HP, "        if step < 0:\n            raise ValueError(\n                f'step value cannot be negative. Got step={step}.',\n            )\n        if step == 0:", "        if step <= 0:"))
+T('c19-twin-expanded-mul', 'C19', 'x = x * factor instead of *=',
+  (SC, "            self._preconditioner._damping *= factor", "            self._preconditioner._damping = self._preconditioner._damping * factor"))
+T('c19-twin-commuted', 'C19', 'factor * old',
+  (SC, "                self._preconditioner._inv_update_steps * factor,", "                factor * self._preconditioner._inv_update_steps,"))
+T('c19-twin-is-none-flip', 'C19', 'preconditioner.steps if step is None else step',
+  (SC, "            factor = self._lr_lambda(\n                step if step is not None else self._preconditioner.steps,",
+       "            factor = self._lr_lambda(\n                self._preconditioner.steps if step is None else step,"))
+T('c19-twin-expdecay-max', 'C19', 'max(step, 1) instead of the zero branch',
+  (HP, "        if step == 0:\n            step = 1\n        return min(1 - (1 / step), min_value)", "        return min(1 - (1 / max(step, 1)), min_value)"))
+T('c19-twin-expdecay-commute', 'C19', 'min(cap, 1 - 1/step)',
+  (HP, "        return min(1 - (1 / step), min_value)", "        return min(min_value, 1 - 1 / step)"))
